@@ -32,7 +32,7 @@ func checkSingular(s []float64) *vk.Failure {
 
 // drawShape draws (m, n) including the m >= 1.6 n and n >= 1.6 m regions.
 func drawShape(t *rapid.T, hi int) (m, n int) {
-	k := vk.Dim(t, "k", 0, hi, dimBoundaries...)
+	k := dimN(t, "k", hi, dimBoundaries...)
 	switch rapid.SampledFrom([]int{0, 1, 2, 3, 3, 4, 4, 5}).Draw(t, "shape") {
 	case 0: // square
 		return k, k
@@ -47,7 +47,7 @@ func drawShape(t *rapid.T, hi int) (m, n int) {
 	case 4:
 		return k, k + rapid.IntRange(1, max(1, k/2)).Draw(t, "extra")
 	}
-	return vk.Dim(t, "m", 0, hi, dimBoundaries...), k
+	return dimN(t, "m", hi, dimBoundaries...), k
 }
 
 // ---- Dgesvd -------------------------------------------------------------------
@@ -757,7 +757,7 @@ func drawBdsqr(t *rapid.T) kase {
 	c.J[3] = rapid.IntRange(0, 2).Draw(t, "nru")
 	c.P = rapid.IntRange(0, 2).Draw(t, "ncc")
 	c.K = rapid.IntRange(1, 9).Draw(t, "k")
-	c.N = vk.Dim(t, "n", 0, 50, dimBoundaries...)
+	c.N = dimN(t, "n", 50, dimBoundaries...)
 	c.Pad = drawPads(t, 3)
 	c.Cls = rapid.IntRange(0, 7).Draw(t, "cls")
 	c.Sc = rapid.SampledFrom([]int{0, 0, 0, 100, -100, 400, -400}).Draw(t, "sc")
